@@ -1,5 +1,4 @@
-import LsLemmas.LoopWitness
-import LsLemmas.LoopNative
+import LsLemmas.LoopI1
 import LsProps.C11
 /-
   C03 — A committed local application write is never destroyed by syncing.
@@ -21,31 +20,6 @@ import LsProps.C11
 -/
 namespace Ls.C03
 open Ls Ls.Lmdb Ls.Strategy Ls.Txn Ls.SyncLoop Ls.Loop
-
-/-- I1: every application transaction not yet captured has an id above `lastSynced` (and at most
-    `lastTxn`) — except between `beforeInfo`'s decision to send and `SendOnce`'s capture
-    (`pc = beforeSend`, where `lastSynced` has just been set to `lastTxn` and the capture follows
-    in the next segment without a `LoadOnce` in between), and after the loop has ended. -/
-def I1 (g : G) : Prop :=
-  g.st.pc = .beforeSend ∨ (∃ e, g.st.pc = .exited e) ∨
-    ∀ p ∈ g.gh.uncap, g.st.lastSynced < p ∧ p ≤ g.st.env.lastTxn
-
-theorem i1_of_inv {c : LoopCfg} {g : G} (h0 : Inv0 c g) (h1 : Inv1 c g) : I1 g := by
-  unfold I1
-  unfold Inv1 at h1
-  have hle := h0.all_le.1
-  have hp0 := h0.pcinv
-  revert h1 hp0
-  cases hpc : g.st.pc <;> simp only [PcInv1, PcInv0] <;> intro h1 hp0
-  · exact Or.inr (Or.inr fun p hp => ⟨h1.1 p hp, hle p hp⟩)
-  · exact Or.inr (Or.inr fun p hp => ⟨h1.1 p hp, hle p hp⟩)
-  · exact Or.inr (Or.inr fun p hp => ⟨h1.1.1 p hp, hle p hp⟩)
-  · exact Or.inr (Or.inr fun p hp => ⟨h1.1 p hp, hle p hp⟩)
-  · exact Or.inl trivial
-  · exact Or.inr (Or.inr fun p hp => ⟨Nat.lt_of_le_of_lt hp0.2.1 (h1.1.1 p hp), hle p hp⟩)
-  · exact Or.inr (Or.inr fun p hp => ⟨Nat.lt_of_le_of_lt hp0.2.1 (h1.1.1 p hp), hle p hp⟩)
-  · exact Or.inr (Or.inr fun p hp => ⟨h1.1.1 p hp, hle p hp⟩)
-  · exact Or.inr (Or.inl ⟨_, rfl⟩)
 
 /-- **I1 holds after every race-free schedule** — any instance configuration, any start
     environment, any bucket, any list of events (loop segments with arbitrary receiver answers,
